@@ -131,6 +131,8 @@ form (only then the attributes are compared) -/
 structure Exp where
   res : Res String
   attrsCanon : Bool := true
+  /-- from this record on nothing is determined (see `laxFlags`) -/
+  openTail : Bool := false
 
 def okMatches (e : Exp) (s r : String) : Bool :=
   if e.attrsCanon then r = "ok=" ++ s else r.startsWith "ok=" && dropAttrs r = "ok=" ++ dropAttrs s
@@ -139,8 +141,9 @@ def okMatches (e : Exp) (s r : String) : Bool :=
 def matchResults : List Exp → List String → Bool → Bool → Option String
   | [], [], _, _ => none
   | [], _ :: _, _, _ => some "more-records-than-lines"
-  | _ :: _, [], _, prevErr => if prevErr then none else some "fewer-records-than-lines"
+  | e :: _, [], _, prevErr => if prevErr || e.openTail then none else some "fewer-records-than-lines"
   | e :: es, r :: rs, seenBad, _ =>
+    if e.openTail then none else
     if !(r = "err" || r.startsWith "ok=") then some "unparsable-result" else
     match e.res with
     | .ok s =>
@@ -175,6 +178,57 @@ def gffExp (d : Dialect) (bytes : List Nat) : List Exp :=
       | none => { res := .unspec }
     | .err w => { res := .err w }
     | .unspec => { res := .unspec }
+
+/-! ### what the property leaves open in the csv layer
+
+The model reader follows `csv-core` on every byte string.  For bytes that are not the canonical form of any record
+the property does not say how they are to be read, so the comparison with the real reader is relaxed there:
+
+* level 1 (that record is `unspec`): a `"` inside an unquoted field; a byte other than `"`, TAB, LF after the closing
+  quote of a quoted field;
+* level 2 (that record and everything after it is open): a CR outside quotes and comments (the property knows
+  LF-terminated lines only); the input ends inside a quoted field (truncation).
+
+None of this occurs in the bytes a correct writer produces (there the comparison is strict). -/
+
+def laxOf (s : Csv) (c : Nat) : Nat :=
+  match s.st with
+  | .inField => if c = QUOTE then 1 else if c = CR then 2 else 0
+  | .quoteInQuoted => if c = QUOTE || c = TAB || c = LF then 0 else if c = CR then 2 else 1
+  | .startField => if c = CR then 2 else 0
+  | .startRecord => if c = CR then 2 else 0
+  | _ => 0
+
+/-- one level per record of `run s bytes`, and the level pending at the end of the input -/
+def laxRun : Csv → Nat → List Nat → List Nat × Nat
+  | s, cur, [] =>
+    match s.st with
+    | .startRecord | .inComment => ([], cur)
+    | .inQuoted => ([2], 0)
+    | _ => ([cur], 0)
+  | s, cur, c :: r =>
+    let cur' := max cur (laxOf s c)
+    match (step s c).2 with
+    | some _ => let (l, p) := laxRun (step s c).1 0 r; (cur' :: l, p)
+    | none => laxRun (step s c).1 cur' r
+
+def laxFlags (bytes : List Nat) : List Nat × Nat := laxRun Csv.start 0 (bytes ++ [LF])
+
+/-- relax the expectations of a byte string by the levels of its records -/
+def relax (es : List Exp) (bytes : List Nat) : List Exp :=
+  let (fl, pending) := laxFlags bytes
+  let rec go : List Exp → List Nat → List Exp
+    | [], _ => if pending ≥ 2 then [{ res := .unspec, openTail := true }] else []
+    | e :: es, f :: fs =>
+      if f ≥ 2 then [{ res := .unspec, openTail := true }]
+      else if f = 1 then { e with res := .unspec } :: go es fs
+      else e :: go es fs
+    | e :: es, [] => e :: go es []
+  go es fl
+
+def isLax (bytes : List Nat) : Bool :=
+  let (fl, pending) := laxFlags bytes
+  fl.any (· ≥ 1) || pending ≥ 1
 
 def allOk (es : List Exp) : Option (List String) :=
   es.mapM fun e => match e.res with | .ok s => some s | _ => none
@@ -257,7 +311,7 @@ def faultRuns (fault : String) (o : Obs) : Option (List (List Nat × List String
     | _ => none
 
 def faultReasons (mk : List Nat → List Exp) (runs : List (List Nat × List String)) : List String :=
-  runs.filterMap fun (bytes, res) => matchResults (mk bytes) res false false
+  runs.filterMap fun (bytes, res) => matchResults (relax (mk bytes) bytes) res false false
 
 def tagsOf (kind : String) (fault : String) (nrec : Int) (comments : String) (es : List (List Exp)) : String :=
   " " ++ kind ++ " fault-" ++ faultKind fault
@@ -267,6 +321,7 @@ def tagsOf (kind : String) (fault : String) (nrec : Int) (comments : String) (es
     ++ (if es.any (fun l => l.any fun e => match e.res with | .err _ => true | _ => false) then " err-line" else "")
     ++ (if es.any (fun l => l.any fun e => match e.res with | .unspec => true | _ => false) then " unspec-line" else "")
     ++ (if es.any (fun l => l.any fun e => !e.attrsCanon) then " attr-not-of-written-form" else "")
+    ++ (if es.any (fun l => l.any fun e => e.openTail) then " lax-tail" else "")
     ++ (if (match parseCuts fault with | some l => decide (l.length ≥ 20) | none => false) then " many-cuts" else "")
 
 /-- tags for the csv-sensitive classes of field contents -/
@@ -307,8 +362,11 @@ def bedVerdict (recs : List BedRec) (comments fault : String) (o : Obs) : String
     (if allOk wExp = some orig then []
      else if tainted then ["writer:hash-start-record-lost"]
      else ["writer:lost-or-changed-data"])
-    ++ (match matchResults wExp o.r false false with | some x => ["read:" ++ x] | none => [])
-    ++ commentsReason cExp o.c.2
+    -- the writer's bytes read as the original records: then the real reader has to return exactly those (round
+    -- trip); otherwise it is compared with the model on what the bytes determine
+    ++ (match matchResults (if allOk wExp = some orig then wExp else relax wExp o.w) o.r false false with
+        | some x => ["read:" ++ x] | none => [])
+    ++ commentsReason (relax cExp o.c.1) o.c.2
   match faultRuns fault o with
   | none => "bad-op fault-output"
   | some runs =>
@@ -318,7 +376,8 @@ def bedVerdict (recs : List BedRec) (comments fault : String) (o : Obs) : String
     | none =>
       let k := match recs with | r :: _ => r.aux.length | [] => 0
       "ok" ++ (if k ≥ 1 && !recs.isEmpty then " nt" else "")
-        ++ tagsOf "bed" fault recs.length comments (runs.map fun (b, _) => bedExp b)
+        ++ tagsOf "bed" fault recs.length comments (runs.map fun (b, _) => relax (bedExp b) b)
+        ++ (if runs.any (fun (b, _) => isLax b) then " lax-fault" else "")
         ++ (if k = 0 then " k0" else if k ≥ 3 then " k>=3" else " k1-2")
         ++ commentsTag (readBed o.c.1 == readBed o.w)
         ++ quoteTags (recs.flatMap fun r => r.chrom :: r.aux) (recs.map (·.chrom)) o.w
@@ -352,8 +411,9 @@ def gffVerdict (dn : String) (d : Dialect) (recs : List GffRead) (comments fault
           (·.mapM showGff)
       if multi && (allOk wExp).isSome && allOk e2 = firsts then ["rewrite:attr-multi-first-only"] else ["rewrite:changed-data"]
   let reasons : List String := writerReason
-    ++ (match matchResults wExp o.r false false with | some x => ["read:" ++ x] | none => [])
-    ++ commentsReason (gffExp d o.c.1) o.c.2
+    ++ (match matchResults (if writerReason.isEmpty then wExp else relax wExp o.w) o.r false false with
+        | some x => ["read:" ++ x] | none => [])
+    ++ commentsReason (relax (gffExp d o.c.1) o.c.1) o.c.2
     ++ (match matchResults mExp mRes false false with | some x => ["read-intended:" ++ x] | none => [])
     ++ rwReason
   match faultRuns fault o with
@@ -365,7 +425,8 @@ def gffVerdict (dn : String) (d : Dialect) (recs : List GffRead) (comments fault
     | none =>
       let nvals := recs.map fun r => r.pairs.length
       "ok" ++ (if nvals.any (· ≥ 2) then " nt" else "")
-        ++ tagsOf dn fault recs.length comments (runs.map fun (b, _) => gffExp d b)
+        ++ tagsOf dn fault recs.length comments (runs.map fun (b, _) => relax (gffExp d b) b)
+        ++ (if runs.any (fun (b, _) => isLax b) then " lax-fault" else "")
         ++ (if multi then " multi-valued" else "") ++ " style-" ++ style
         ++ (if recs.any (fun r => r.pairs.isEmpty) then " no-attrs" else "")
         ++ commentsTag (readGff d o.c.1 == readGff d o.w)
